@@ -143,6 +143,15 @@ package snowflake_proxy
 //@   requires sf != nil
 //@   assumes urlParses(probeURL)
 //
+// ---- the poll loop (C16): a session is started only with a slot taken for it (tokens.get blocks while all N slots
+// are in use), one slot per session.
+//@ func (sf *SnowflakeProxy) Start() (err error)
+//@   props C16
+//@   flag nosafety
+//@   requires sf != nil
+//@   loop 1 invariant {one-slot-taken-per-session-started} calls(get) == calls(runSession)
+//@   at call runSession assert {a-slot-is-taken-for-this-session} calls(get) == calls(runSession) + 1
+//
 // ---- the relay loop (C16): the data channel handler holds the session's slot until copyLoop returns, and copyLoop
 // returns when one of its two copiers has ended (or at shutdown). So a copier that ends - for whatever reason: end of
 // stream, closed pipe, a relay connection that died with an error - must announce it by closing `done`; a copier
